@@ -169,6 +169,8 @@ func (t *Tokenizer) Reset() {
 	// The cached position describes the previous input: empty it
 	t.posCacheIndex = 0
 	t.posCacheColumn = 0
+	t.codeScanIndex = 0
+	t.codeScanFound = false
 
 	// Don't reset keywords as they're constant
 	t.logger = nil
